@@ -100,37 +100,54 @@ func (c *ctl) choices(j Job) []Ev {
 	return out
 }
 
-func weight(e Ev, c *ctl) int {
+// category is the class of an event for the random walk; the walk first
+// picks a class by weight and then an event of that class uniformly.
+func category(e Ev, c *ctl) (string, int) {
 	switch e.K {
 	case "req":
 		if e.ND {
-			return 1
+			return "req-nd", 1
 		}
-		if e.A == 0 {
-			return 4
-		}
-		return 2
+		return "req", 5
 	case "pass":
-		return 5
+		return "pass", 6
 	case "dial":
 		if e.OK {
-			return 4
+			return "dial-ok", 5
 		}
-		return 2
+		return "dial-fail", 3
 	case "failgo":
-		return 4
+		return "failgo", 5
 	case "release":
 		c.mu.Lock()
 		n := c.threads[e.I].releases
 		c.mu.Unlock()
 		if n > 0 {
-			return 1
+			return "release-again", 1
 		}
-		return 4
+		return "release", 5
 	case "cancel":
-		return 1
+		return "cancel", 1
 	}
-	return 1
+	return "other", 1
+}
+
+func weights(ch []Ev, c *ctl) []int {
+	cats := make([]string, len(ch))
+	cw := make([]int, len(ch))
+	count := map[string]int{}
+	for i, e := range ch {
+		cats[i], cw[i] = category(e, c)
+		count[cats[i]]++
+	}
+	ws := make([]int, len(ch))
+	for i := range ch {
+		ws[i] = cw[i] * 60 / count[cats[i]]
+		if e := ch[i]; e.K == "req" && !e.ND && e.A == 0 {
+			ws[i] *= 2 // contention on one address is where the interesting interleavings are
+		}
+	}
+	return ws
 }
 
 func childMain() {
@@ -198,11 +215,7 @@ func runJob(j Job, emit func(Line)) {
 			if len(ch) == 0 {
 				break
 			}
-			ws := make([]int, len(ch))
-			for i, e := range ch {
-				ws[i] = weight(e, c)
-			}
-			if !play(ch[r.Pick(ws...)], len(ch)) {
+			if !play(ch[r.Pick(weights(ch, c)...)], len(ch)) {
 				break
 			}
 		}
@@ -409,6 +422,12 @@ func (e *emitter) add(family string, ops []Ev, obs []Obs) {
 			} else {
 				e.meta.Hist("ret:" + r.Kind)
 			}
+		}
+		if i > 0 && len(obs[i].Closed) > len(obs[i-1].Closed) {
+			e.meta.Hist("handle-closed")
+		}
+		if o.K == "release" && !obs[i].Ign && i > 0 && len(obs[i].Closed) == len(obs[i-1].Closed) {
+			e.meta.Hist("release-without-close")
 		}
 		if obs[i].Bad != 0 {
 			e.meta.Hist(fmt.Sprintf("bad:%d", obs[i].Bad))
